@@ -102,6 +102,9 @@ impl Cfg {
             // every second small write rotates the memtable
             "R" => Cfg::new(200, 300, 16, reuse),
             "M2b" => Cfg::new(M2_MEMTABLE, 1 << 20, 4096, reuse),
+            // a memtable budget below the size of an empty memtable: every write rotates, also an
+            // empty memtable (flushes that produce no table)
+            "M0" => Cfg::new(1, 300, 16, reuse),
             "D" => Cfg::new(4 << 20, 2 << 20, 4096, reuse),
             // every level 1..=5 overflows with its second ~150-byte file: data cascades to level 6
             "L" => Cfg::new(4 << 20, 300, 1, reuse).with_level_limit(250),
